@@ -25,6 +25,7 @@ from textwrap import dedent
 import argparse
 import asyncio
 import concurrent.futures
+import contextlib
 import datetime
 import hashlib
 import io
@@ -679,12 +680,20 @@ cd {ROOT}
 
         return (workDir, created)
 
-    def __workspaceLock(self, step):
+    @contextlib.asynccontextmanager
+    async def __workspaceLock(self, step):
         path = step.getWorkspacePath()
-        ret = self.__workspaceLocks.get(path)
-        if ret is None:
-            self.__workspaceLocks[path] = ret = asyncio.Lock()
-        return ret
+        lock = self.__workspaceLocks.get(path)
+        if lock is None:
+            self.__workspaceLocks[path] = lock = asyncio.Lock()
+
+        # Yield the job slot while waiting for the lock. The lock holder might
+        # need it to finish, e.g. to calculate build-ids or fingerprints.
+        await self.__yieldJobWhile(lock.acquire(), lock.release)
+        try:
+            yield
+        finally:
+            lock.release()
 
     async def _generateAudit(self, step, depth, resultHash, buildId, executed=True):
         auditPath = os.path.join(os.path.dirname(step.getWorkspacePath()), "audit.json.gz")
@@ -1936,11 +1945,12 @@ cd {ROOT}
 
         return await step.getDigestCoro(lambda x: getStoredVId(x))
 
-    async def __yieldJobWhile(self, coro):
+    async def __yieldJobWhile(self, coro, undo=None):
         """Yield the job slot while waiting for a coroutine.
 
         Handles the dirty details of cancellation. Might throw CancelledError
-        if overall execution was stopped.
+        if overall execution was stopped. In this case ``undo`` is called if
+        the coroutine had already finished successfully.
         """
         self.__runners.release()
         try:
@@ -1953,7 +1963,9 @@ cd {ROOT}
                     acquired = True
                 except asyncio.CancelledError:
                     pass
-        if not self.__running: raise CancelBuildException
+        if not self.__running:
+            if undo is not None: undo()
+            raise CancelBuildException
         return ret
 
     async def _getFingerprint(self, step, depth):
